@@ -1,7 +1,7 @@
 #!/bin/bash
 # Confirm a seeded change in the sub-agent's scratch worktree:
 #   demo passes without the change, fails with it, and the crate's existing suite still passes with it.
-# usage: confirm_seed.sh <ID> [seed dir suffix]
+# usage: confirm_seed.sh <ID> [seed dir suffix] [crate dir the demo belongs in]
 ID=$1; SFX=${2:-$1}
 WT=/tmp/wt-$ID; SEED=/tmp/seed-$SFX; OUT=/verif/seeded/$SFX
 export CARGO_NET_OFFLINE=true
@@ -11,9 +11,11 @@ DEMO=$(ls $SEED/*.rs | head -1)
 DEMONAME=$(basename $DEMO .rs)
 # crate = first path component of the first file in the patch, unless the demo was placed elsewhere
 CRATE_DIR=$(find . -path ./target -prune -o -name "$DEMONAME.rs" -print | head -1 | cut -d/ -f2)
+[ -n "$3" ] && CRATE_DIR=$3
 [ -z "$CRATE_DIR" ] && CRATE_DIR=$(grep -m1 '^+++ b/' $SEED/patch.diff | sed 's#+++ b/##' | cut -d/ -f1)
 PKG=grin_$CRATE_DIR
 git checkout -q -- . 
+mkdir -p $CRATE_DIR/tests
 cp $DEMO $CRATE_DIR/tests/$DEMONAME.rs
 {
 echo "== seed $SFX: crate $PKG demo $DEMONAME"
